@@ -1031,7 +1031,9 @@ class Interp:
         return z3.And(res, here, rest)
       elif isinstance(st, (ast.Return, ast.Raise, ast.Break)):
         return z3.And(res, z3.BoolVal(False))
-      elif isinstance(st, ast.Assign) and all(isinstance(t, ast.Name) for t in st.targets):
+      elif isinstance(st, ast.Assign) and all(
+          isinstance(t, ast.Name) or (isinstance(t, ast.Tuple) and all(isinstance(e, ast.Name) for e in t.elts))
+          for t in st.targets):
         exits = []
         self.path.nf_exits_stack.append(exits)
         try:
